@@ -147,6 +147,14 @@ class _LogList(list):
         super().remove(fut)
         self.drv.on_remove(fut)
 
+    def insert(self, pos, fut):          # not used by the current code; kept observable for changed code
+        super().insert(pos, fut)
+        self.drv.on_append(fut)
+
+    def extend(self, futs):
+        for f in futs:
+            self.append(f)
+
     def __iter__(self):
         self.drv.on_iterate()
         return super().__iter__()
@@ -530,6 +538,7 @@ def monitor(tr):
     state = {}           # index -> 'P' | ('R', msgid) | 'C'
     inlist = {}
     armed_tmo = set()
+    due_pending = set()      # the timeout given by the caller expired (virtual clock) while the request was pending
     ext_cancel = set()
     raise_at = [k for k, r in enumerate(tr['raised']) if r]
     for k, e in enumerate(ev):
@@ -566,6 +575,8 @@ def monitor(tr):
             i = e[1]
             if e[0] == 'Timeout':
                 armed_tmo.add(i)
+                if state[i] == 'P' and i not in ext_cancel:
+                    due_pending.add(i)
             elif e[0] == 'Cancel':
                 ext_cancel.add(i)
             if state[i] == 'P' and W[i]['fut'] == (3, 0):
@@ -596,6 +607,10 @@ def monitor(tr):
                     if e[0] == 'Message' and spec_matches(specs[i], e[2]) and not tr['raised'][k]:
                         v.append(('not-first-match', f'waiter {i} completed by message {mid} although message {e[1]} matched earlier', {'waiter': i}))
                         break
+        # the timeout the caller asked for: at that instant a pending request ends (it is not completed or left pending later)
+        if i in due_pending and w['fut'] != (3, 0):
+            v.append(('timeout-not-at-deadline', f'waiter {i} ({kind}): still pending when its timeout of {specs[i]["timeout"]} s had expired '
+                      f'(future afterwards: {w["fut"]}, caller: {w["out"]})', {'waiter': i}))
         # timeout is a timeout: timer fired while pending with no other cancel -> TimeoutError
         if i in armed_tmo and i not in ext_cancel and w['fut'] == (3, 0) and w['out'] not in ((2, 0), (4, 0)):
             v.append(('timeout-not-reported', f'waiter {i} timed out but the caller got {w["out"]}', {'waiter': i}))
@@ -913,7 +928,7 @@ def run(run: Run):
                     'wrapper around Network.on_message_received, virtual clock for timeouts)']
     run.assumptions += ['message handlers of the delivered message classes do not suspend (checked: every fed frame reaches the completion loop)',
                         'one waiter is awaited by at most one task']
-    proved = run.prove(['tr_retry'])
+    proved = run.prove(['tr_retry', 'tr_waiter'])
 
     traces = []
 
